@@ -17,6 +17,7 @@ Request line:  `id enc <op> key=value …`
                  (each cell = decompress_glwe of the stored (body, seed)); `seeds`/`child` is the table of `Source::new`
                  (each cell = decompress_glwe of the stored (body, seed)); the routines executed are the scratch-temporary
                  versions `…CompressedT`, entered with a non-zero temporary
+    cmp_ksk      as cmp_gglwe with `pt` = raw input secret, `sk` = raw output secret of ANY degree ≤ n: compressed switching key (embedding by the model)
     cmp_tsk      as cmp_gglwe without `pt`: compressed tensor key (the model derives the tensor secret from `sk`)
     cmp_brk      bits n b kxe size rank dnum sk=<cols> sklwe=<ints> top gseeds=<4 words;…> sub=<words;…> seeds child es:
                  compressed blind-rotation key, all GGSWs; answer as cmp_ggsw over all GGSWs in order
@@ -150,6 +151,17 @@ def handle (ts : List String) : String :=
           (kvPolys ts "sk") expand [] (kvPolys ts "es") with
       | none => "panic"
       | some cells => showCells b n (kvNat ts "rank") (rankIn * dnum) expand cells
+    | "cmp_ksk" =>
+      -- compressed switching key: raw secrets of any degree ≤ n; the model embeds them (vec_znx_switch_ring)
+      let top := natsOf ts "top"
+      let expand := expandTable top (kvWordLists ts "seeds") (kvWordLists ts "child")
+      let rank := kvNat ts "rank"
+      let rankIn := kvNat ts "rank_in"
+      let dnum := kvNat ts "dnum"
+      match Core.glweSwitchingKeyEncryptCompressedT (dirtyTmp n size) bits b n size kxe rank rankIn dnum (kvNat ts "dsize") (kvPolys ts "pt")
+          (kvPolys ts "sk") expand [] (kvPolys ts "es") with
+      | none => "panic"
+      | some cells => showCells b n rank (rankIn * dnum) expand cells
     | "cmp_tsk" =>
       let top := natsOf ts "top"
       let expand := expandTable top (kvWordLists ts "seeds") (kvWordLists ts "child")
